@@ -96,6 +96,14 @@ func main() {
 		camp.Witness{Kind: "c09", Text: "a : 'a' ;\nS : \"`\" a | a a ;\n", Flags: []string{"-a"}, Strs: []string{"hostile", "", ""}})
 	add("C09", "F6-b", "fixed", "907040a", "a newline inside a raw string literal broke the // comments of actiontable.go",
 		camp.Witness{Kind: "c09", Text: "a : 'a' ;\nS : `x\ny` a | a a ;\n", Flags: []string{"-a"}, Strs: []string{"hostile", "", ""}})
+	// ---- F13 (fixed): invalid UTF-8 byte in a string literal
+	f13 := "a : 'a' ;\nS : \"th\xffn\" a | a a ;\n"
+	add("C09", "F13", "fixed", "31d6772", "a byte that is not valid UTF-8 inside a string literal was copied into actiontable.go / productionstable.go, which then did not compile (status zero)",
+		camp.Witness{Kind: "c09", Text: f13, Raw: []byte(f13), Flags: []string{"-a"}, Strs: []string{"mutant", "", ""}})
+	// ---- F9 (fixed): reserved spellings
+	f9 := &Grammar{Lex: []LexDef{tok("a", Seq(Lit('a')))}, NTs: []*NTDef{{Head: "S", Alts: []SAlt{{Body: []Sym{st("INVALID"), tk("a")}}, {Body: []Sym{tk("a")}}}}}}
+	add("C10", "F9", "fixed", "b30ce9e", "a string literal \"INVALID\" shared token number 0 with the INVALID token (and a production named INVALID shifted every number); such grammars are now refused",
+		camp.Witness{Kind: "c10", Grammar: f9, Flags: []string{"-a"}, Strs: []string{"combined"}})
 	// ---- F4b (fixed): Lexer.Reset
 	f4b := &Grammar{Lex: []LexDef{tok("a", Seq(Lit('a'))), ign("!ws", Alts([]Term{Lit(' ')}, []Term{Lit('\n')}))},
 		NTs: []*NTDef{{Head: "S", Alts: []SAlt{{Body: []Sym{tk("a")}}, {Body: []Sym{nt("S"), tk("a")}}}}}}
